@@ -16,6 +16,12 @@ pub open spec fn colptr_same_except(a: Seq<usize>, b: Seq<usize>, lo: int, hi: i
 pub open spec fn untouched(cur: Seq<usize>, lo: int, hi: int, s: int) -> bool {
     forall|c: int| lo <= c < hi ==> #[trigger] cur[c] != s
 }
+pub proof fn lemma_rot_index(c: int, n: int)
+    requires 1 <= c < n,
+    ensures (c + n - 1) % n == c - 1,
+{
+    vstd::arithmetic::div_mod::lemma_fundamental_div_mod_converse(c + n - 1, n, 1, c - 1);
+}
 pub open spec fn sum_upto(s: Seq<usize>, n: int) -> int decreases n { if n <= 0 { 0 } else { sum_upto(s, n - 1) + s[n - 1] } }
 
 impl CscMatrix<F> {
@@ -209,7 +215,9 @@ it
             &&& final(self).nzval@[dest] == f_zero()
         },
         forall|s: int| 0 <= s < old(self).rowval@.len() && !(old(self).colptr@[initcol as int] <= s < old(self).colptr@[initcol as int] + old(vtoKKT)@.len())
-            ==> #[trigger] final(self).rowval@[s] == old(self).rowval@[s] && final(self).nzval@[s] == old(self).nzval@[s],
+            ==> #[trigger] final(self).rowval@[s] == old(self).rowval@[s],
+        forall|s: int| 0 <= s < old(self).rowval@.len() && !(old(self).colptr@[initcol as int] <= s < old(self).colptr@[initcol as int] + old(vtoKKT)@.len())
+            ==> #[trigger] final(self).nzval@[s] == old(self).nzval@[s],
 //@pre
         proof { assert(self.rowval@.len() == self.rowval.len()); }
 //@loop 1
@@ -225,7 +233,9 @@ it
                 &&& self.nzval@[dest] == f_zero()
             },
             forall|s: int| 0 <= s < old(self).rowval@.len() && !(old(self).colptr@[initcol as int] <= s < old(self).colptr@[initcol as int] + i_ctr)
-                ==> #[trigger] self.rowval@[s] == old(self).rowval@[s] && self.nzval@[s] == old(self).nzval@[s],
+                ==> #[trigger] self.rowval@[s] == old(self).rowval@[s],
+            forall|s: int| 0 <= s < old(self).rowval@.len() && !(old(self).colptr@[initcol as int] <= s < old(self).colptr@[initcol as int] + i_ctr)
+                ==> #[trigger] self.nzval@[s] == old(self).nzval@[s],
 //@end
 
 //@fn file=src/algebra/csc/utils.rs in="impl<T> CscMatrix<T>" name=fill_rowvec rules=R1,R3,zipidx:1
@@ -394,8 +404,439 @@ it1
                     lemma_fill_block_step(*old(self), s0, *self, *M, map0, MtoKKT@, initrow, initcol, shape, ii, jj);
                 }
 //@end
+
+//@fn file=src/algebra/csc/utils.rs in="impl<T> CscMatrix<T>" name=_fill_dense_triangle_triu rules=R1,R20
+//@contract
+    requires tri_pre(*old(self), offset as int, blockdim as int, old(blocktoKKT)@.len() as int),
+    ensures triu_state(*old(self), *final(self), old(blocktoKKT)@, final(blocktoKKT)@, offset as int, blockdim as int, blockdim as int, 0),
+//@pre
+        proof {
+            assert(self.colptr@.len() == self.colptr.len()); assert(self.rowval@.len() == self.rowval.len()); assert(blocktoKKT@.len() == blocktoKKT.len());
+            assert forall|s: int| 0 <= s < self.rowval@.len() && #[trigger] tri_free(self.colptr@, offset as int, blockdim as int, 0, 0, s)
+                implies self.rowval@[s] == self.rowval@[s] by {}
+        }
+//@iter 1
+it0
+//@loop 1
+        invariant
+            it0.seq().len() == blockdim, range_from_u(it0.seq(), offset as int),
+            self.colptr@.len() <= usize::MAX, self.rowval@.len() <= usize::MAX, blocktoKKT@.len() <= usize::MAX,
+            tri_pre(*old(self), offset as int, blockdim as int, old(blocktoKKT)@.len() as int),
+            triu_state(*old(self), *self, old(blocktoKKT)@, blocktoKKT@, offset as int, blockdim as int, it0.index@ as int, 0),
+            kidx == tri(it0.index@ as int),
+//@body_start 1
+            let ghost gj = col as int - offset;
+            proof { lemma_tri_mono(gj + 1, blockdim as int); lemma_tri_mono(gj, gj); assert(tri(gj + 1) == tri(gj) + gj + 1); }
+//@iter 2
+it1
+//@loop 2
+            invariant
+                0 <= gj < blockdim, col == offset + gj, it1.seq().len() == gj + 1, range_from_u(it1.seq(), offset as int),
+                self.colptr@.len() <= usize::MAX, self.rowval@.len() <= usize::MAX, blocktoKKT@.len() <= usize::MAX,
+                tri_pre(*old(self), offset as int, blockdim as int, old(blocktoKKT)@.len() as int),
+                triu_state(*old(self), *self, old(blocktoKKT)@, blocktoKKT@, offset as int, blockdim as int, gj, it1.index@ as int),
+                kidx == tri(gj) + it1.index@, tri(gj) + gj + 1 <= tri(blockdim as int), 0 <= tri(gj),
+//@body_start 2
+                let ghost s0 = *self;
+                let ghost map1 = blocktoKKT@;
+                let ghost gi = row as int - offset;
+                proof {
+                    assert(tri_cnt(col as int - offset, gj, gi) == gi);
+                    assert(self.colptr@[col as int] == old(self).colptr@[offset + gj] + gi);
+                    assert(old(self).colptr@[offset + gj] + gj + 1 <= old(self).rowval@.len());
+                }
+//@body_end 2
+                proof { lemma_triu_step(*old(self), s0, *self, old(blocktoKKT)@, map1, blocktoKKT@, offset as int, blockdim as int, gj, gi); }
+//@body_end 1
+            proof { lemma_triu_roll(*old(self), *self, old(blocktoKKT)@, blocktoKKT@, offset as int, blockdim as int, gj); }
+//@end
+
+//@fn file=src/algebra/csc/utils.rs in="impl<T> CscMatrix<T>" name=_fill_dense_triangle_tril rules=R1,R20
+//@contract
+    requires tril_pre(*old(self), offset as int, blockdim as int, old(blocktoKKT)@.len() as int),
+    ensures tril_state(*old(self), *final(self), old(blocktoKKT)@, final(blocktoKKT)@, offset as int, blockdim as int, blockdim as int, 0),
+//@pre
+        proof {
+            assert(self.colptr@.len() == self.colptr.len()); assert(self.rowval@.len() == self.rowval.len()); assert(blocktoKKT@.len() == blocktoKKT.len());
+        }
+//@iter 1
+it0
+//@loop 1
+        invariant
+            it0.seq().len() == blockdim, range_from_u(it0.seq(), offset as int),
+            self.colptr@.len() <= usize::MAX, self.rowval@.len() <= usize::MAX, blocktoKKT@.len() <= usize::MAX,
+            tril_pre(*old(self), offset as int, blockdim as int, old(blocktoKKT)@.len() as int),
+            tril_state(*old(self), *self, old(blocktoKKT)@, blocktoKKT@, offset as int, blockdim as int, it0.index@ as int, 0),
+            kidx == tri(it0.index@ as int),
+//@body_start 1
+            let ghost gr = row as int - offset;
+            proof { lemma_tri_mono(gr + 1, blockdim as int); lemma_tri_mono(gr, gr); assert(tri(gr + 1) == tri(gr) + gr + 1); }
+//@iter 2
+it1
+//@loop 2
+            invariant
+                0 <= gr < blockdim, row == offset + gr, it1.seq().len() == gr + 1, range_from_u(it1.seq(), offset as int),
+                self.colptr@.len() <= usize::MAX, self.rowval@.len() <= usize::MAX, blocktoKKT@.len() <= usize::MAX,
+                tril_pre(*old(self), offset as int, blockdim as int, old(blocktoKKT)@.len() as int),
+                tril_state(*old(self), *self, old(blocktoKKT)@, blocktoKKT@, offset as int, blockdim as int, gr, it1.index@ as int),
+                kidx == tri(gr) + it1.index@, tri(gr) + gr + 1 <= tri(blockdim as int), 0 <= tri(gr),
+//@body_start 2
+                let ghost s0 = *self;
+                let ghost map1 = blocktoKKT@;
+                let ghost gj = col as int - offset;
+                proof {
+                    assert(tril_cnt(col as int - offset, gr, gj) == gr - gj);
+                    assert(self.colptr@[col as int] == old(self).colptr@[offset + gj] + (gr - gj));
+                    assert(old(self).colptr@[offset + gj] + (blockdim - gj) <= old(self).rowval@.len());
+                }
+//@body_end 2
+                proof { lemma_tril_step(*old(self), s0, *self, old(blocktoKKT)@, map1, blocktoKKT@, offset as int, blockdim as int, gr, gj); }
+//@body_end 1
+            proof { lemma_tril_roll(*old(self), *self, old(blocktoKKT)@, blocktoKKT@, offset as int, blockdim as int, gr); }
+//@end
+
+//@fn file=src/algebra/csc/utils.rs in="impl<T> CscMatrix<T>" name=fill_dense_triangle rules=R1
+//@contract
+    requires
+        shape == MatrixTriangle::Triu ==> tri_pre(*old(self), offset as int, blockdim as int, old(blocktoKKT)@.len() as int),
+        shape == MatrixTriangle::Tril ==> tril_pre(*old(self), offset as int, blockdim as int, old(blocktoKKT)@.len() as int),
+    ensures
+        shape == MatrixTriangle::Triu ==> triu_state(*old(self), *final(self), old(blocktoKKT)@, final(blocktoKKT)@, offset as int, blockdim as int, blockdim as int, 0),
+        shape == MatrixTriangle::Tril ==> tril_state(*old(self), *final(self), old(blocktoKKT)@, final(blocktoKKT)@, offset as int, blockdim as int, blockdim as int, 0),
+//@end
+
+//@fn file=src/algebra/csc/utils.rs in="impl<T> CscMatrix<T>" name=colcount_diag rules=R1,R19,R17,zipidx:*
+//@contract
+    requires
+        initcol + blockcols <= old(self).colptr@.len(),
+        forall|c: int| initcol <= c < initcol + blockcols ==> #[trigger] old(self).colptr@[c] < usize::MAX,
+    ensures
+        // C11: one diagonal entry is counted in each of the blockcols columns starting at initcol, nothing else changes
+        final(self).colptr@.len() == old(self).colptr@.len(),
+        forall|c: int| 0 <= c < old(self).colptr@.len() ==> #[trigger] final(self).colptr@[c]
+            == old(self).colptr@[c] + (if initcol <= c < initcol + blockcols { 1int } else { 0int }),
+        final(self).rowval@ == old(self).rowval@, final(self).nzval@ == old(self).nzval@,
+//@pre
+        proof { assert(self.colptr@.len() == self.colptr.len()); }
+//@loop 1
+        invariant
+            r14_lo1_0 == initcol, r14_hi1_0 == initcol + blockcols, r14_n1 == blockcols, r14_hi1_0 <= self.colptr@.len(),
+            self.colptr@.len() == old(self).colptr@.len(),
+            forall|c: int| initcol <= c < initcol + blockcols ==> #[trigger] old(self).colptr@[c] < usize::MAX,
+            forall|c: int| 0 <= c < old(self).colptr@.len() ==> #[trigger] self.colptr@[c]
+                == old(self).colptr@[c] + (if initcol <= c < initcol + r14_i1 { 1int } else { 0int }),
+            self.rowval@ == old(self).rowval@, self.nzval@ == old(self).nzval@,
+//@end
+
+//@fn file=src/algebra/csc/utils.rs in="impl<T> CscMatrix<T>" name=colcount_rowvec rules=R1,R19,R17,zipidx:*
+//@contract
+    requires
+        firstcol + n <= old(self).colptr@.len(),
+        forall|c: int| firstcol <= c < firstcol + n ==> #[trigger] old(self).colptr@[c] < usize::MAX,
+    ensures
+        // C11: a row vector of length n adds one entry to each of n consecutive columns from firstcol
+        final(self).colptr@.len() == old(self).colptr@.len(),
+        forall|c: int| 0 <= c < old(self).colptr@.len() ==> #[trigger] final(self).colptr@[c]
+            == old(self).colptr@[c] + (if firstcol <= c < firstcol + n { 1int } else { 0int }),
+        final(self).rowval@ == old(self).rowval@, final(self).nzval@ == old(self).nzval@,
+//@pre
+        proof { assert(self.colptr@.len() == self.colptr.len()); }
+//@loop 1
+        invariant
+            r14_lo1_0 == firstcol, r14_hi1_0 == firstcol + n, r14_n1 == n, r14_hi1_0 <= self.colptr@.len(),
+            self.colptr@.len() == old(self).colptr@.len(),
+            forall|c: int| firstcol <= c < firstcol + n ==> #[trigger] old(self).colptr@[c] < usize::MAX,
+            forall|c: int| 0 <= c < old(self).colptr@.len() ==> #[trigger] self.colptr@[c]
+                == old(self).colptr@[c] + (if firstcol <= c < firstcol + r14_i1 { 1int } else { 0int }),
+            self.rowval@ == old(self).rowval@, self.nzval@ == old(self).nzval@,
+//@end
+
+//@fn file=src/algebra/csc/utils.rs in="impl<T> CscMatrix<T>" name=fill_missing_diag rules=R1
+//@contract
+    requires
+        old(self).arrays_ok(), M.colptr_ok_u(), M.n <= old(self).colptr@.len(),
+        // (observation O2: the cursor that is advanced is colptr[i], not colptr[i + initcol]; every call site passes 0)
+        initcol == 0,
+        forall|i: int| 0 <= i < M.n ==> M.colptr@[i] <= #[trigger] M.colptr@[i + 1] <= M.rowval@.len(),
+        forall|i: int| 0 <= i < M.n && missing_diag(*M, i) ==> #[trigger] old(self).colptr@[i] < old(self).rowval@.len(),
+        forall|i1: int, i2: int| 0 <= i1 < i2 < M.n ==> #[trigger] old(self).colptr@[i1] != #[trigger] old(self).colptr@[i2],
+    ensures
+        final(self).arrays_ok(), final(self).rowval@.len() == old(self).rowval@.len(), final(self).colptr@.len() == old(self).colptr@.len(),
+        colptr_same_except(final(self).colptr@, old(self).colptr@, 0, M.n as int),
+        // C11: exactly the columns of M without a diagonal entry receive a structural zero on the diagonal
+        forall|i: int| 0 <= i < M.n ==> {
+            let dest = #[trigger] old(self).colptr@[i] as int;
+            if missing_diag(*M, i) { final(self).colptr@[i] == dest + 1 && final(self).rowval@[dest] == i && final(self).nzval@[dest] == f_zero() }
+            else { final(self).colptr@[i] == dest }
+        },
+        forall|s: int| 0 <= s < old(self).rowval@.len() && #[trigger] untouched(old(self).colptr@, 0, M.n as int, s)
+            ==> final(self).rowval@[s] == old(self).rowval@[s] && final(self).nzval@[s] == old(self).nzval@[s],
+//@pre
+        proof { assert(self.rowval@.len() == self.rowval.len()); }
+//@iter 1
+it
+//@loop 1
+        invariant
+            initcol == 0, it.seq().len() == M.n, range_from_u(it.seq(), 0), M.colptr_ok_u(), M.n <= self.colptr@.len(),
+            self.arrays_ok(), self.rowval@.len() == old(self).rowval@.len(), self.colptr@.len() == old(self).colptr@.len(), self.rowval@.len() <= usize::MAX,
+            forall|k: int| 0 <= k < M.n ==> M.colptr@[k] <= #[trigger] M.colptr@[k + 1] <= M.rowval@.len(),
+            forall|k: int| 0 <= k < M.n && missing_diag(*M, k) ==> #[trigger] old(self).colptr@[k] < old(self).rowval@.len(),
+            forall|i1: int, i2: int| 0 <= i1 < i2 < M.n ==> #[trigger] old(self).colptr@[i1] != #[trigger] old(self).colptr@[i2],
+            colptr_same_except(self.colptr@, old(self).colptr@, 0, M.n as int),
+            forall|k: int| it.index@ <= k < M.n ==> #[trigger] self.colptr@[k] == old(self).colptr@[k],
+            forall|k: int| 0 <= k < it.index@ ==> {
+                let dest = #[trigger] old(self).colptr@[k] as int;
+                if missing_diag(*M, k) { self.colptr@[k] == dest + 1 && self.rowval@[dest] == k && self.nzval@[dest] == f_zero() }
+                else { self.colptr@[k] == dest }
+            },
+            forall|s: int| 0 <= s < old(self).rowval@.len() && #[trigger] untouched(old(self).colptr@, 0, it.index@ as int, s)
+                ==> self.rowval@[s] == old(self).rowval@[s] && self.nzval@[s] == old(self).nzval@[s],
+//@body_start 1
+            let ghost rv0 = self.rowval@;
+            let ghost nz0 = self.nzval@;
+            let ghost ic0 = it.index@ as int;
+//@body_end 1
+            proof {
+                assert forall|s: int| 0 <= s < old(self).rowval@.len() && #[trigger] untouched(old(self).colptr@, 0, ic0 + 1, s)
+                    implies self.rowval@[s] == old(self).rowval@[s] && self.nzval@[s] == old(self).nzval@[s] by {
+                    assert(old(self).colptr@[ic0] != s);
+                    assert(untouched(old(self).colptr@, 0, ic0, s));
+                    assert(rv0[s] == old(self).rowval@[s] && nz0[s] == old(self).nzval@[s]);
+                }
+                assert forall|k: int| 0 <= k < ic0 + 1 implies ({
+                    let dest = #[trigger] old(self).colptr@[k] as int;
+                    if missing_diag(*M, k) { self.colptr@[k] == dest + 1 && self.rowval@[dest] == k && self.nzval@[dest] == f_zero() }
+                    else { self.colptr@[k] == dest } }) by {
+                    if k < ic0 { assert(old(self).colptr@[k] != old(self).colptr@[ic0]); }
+                }
+            }
+//@end
+
+//@fn file=src/algebra/csc/utils.rs in="impl<T> CscMatrix<T>" name=backshift_colptrs rules=R1
+//@contract
+    requires old(self).colptr@.len() >= 1,
+    ensures
+        // after a fill pass colptr[c] holds the END of column c; shifting right by one restores the column STARTS
+        final(self).colptr@.len() == old(self).colptr@.len(),
+        final(self).colptr@[0] == 0,
+        forall|c: int| 1 <= c < old(self).colptr@.len() ==> #[trigger] final(self).colptr@[c] == old(self).colptr@[c - 1],
+        final(self).rowval@ == old(self).rowval@, final(self).nzval@ == old(self).nzval@,
+//@after "self.colptr.rotate_right(1);"
+        proof {
+            let n = old(self).colptr@.len() as int;
+            assert forall|c: int| 1 <= c < n implies #[trigger] self.colptr@[c] == old(self).colptr@[c - 1] by {
+                lemma_rot_index(c, n);
+            }
+        }
+//@end
 }
 
+
+// ---- dense triangle blocks (Hs blocks of nonsymmetric / PSD cones): abstract cursor discipline ----
+pub open spec fn tri(j: int) -> int decreases j { if j <= 0 { 0 } else { tri(j - 1) + j } }
+pub proof fn lemma_tri_mono(a: int, b: int)
+    requires 0 <= a <= b,
+    ensures tri(a) <= tri(b), 0 <= tri(a),
+    decreases b,
+{
+    if a < b { lemma_tri_mono(a, b - 1); } else if a > 0 { lemma_tri_mono(a - 1, a - 1); }
+}
+// entries already written in column j (0-based inside the block) when the outer loop is at J and the inner at I
+pub open spec fn tri_cnt(j: int, jj: int, ii: int) -> int { if 0 <= j < jj { j + 1 } else if j == jj { ii } else { 0 } }
+pub open spec fn tri_done(j: int, i: int, jj: int, ii: int, blockdim: int) -> bool { 0 <= i <= j < blockdim && (j < jj || (j == jj && i < ii)) }
+pub open spec fn tri_free(c0: Seq<usize>, offset: int, blockdim: int, jj: int, ii: int, s: int) -> bool {
+    forall|j: int| 0 <= j < blockdim ==> !(#[trigger] c0[offset + j] <= s < c0[offset + j] + tri_cnt(j, jj, ii))
+}
+pub open spec fn tri_pre(K0: CscMatrix<F>, offset: int, blockdim: int, maplen: int) -> bool {
+    &&& K0.arrays_ok() && 0 <= offset && 0 <= blockdim && offset + blockdim <= K0.colptr@.len() && maplen >= tri(blockdim)
+    // every column of the block has room for its part of the triangle, and the columns' slot ranges are ordered
+    &&& forall|j: int| 0 <= j < blockdim ==> #[trigger] K0.colptr@[offset + j] + j + 1 <= K0.rowval@.len()
+    &&& forall|j1: int, j2: int| 0 <= j1 < j2 < blockdim ==> #[trigger] K0.colptr@[offset + j1] + j1 + 1 <= #[trigger] K0.colptr@[offset + j2]
+}
+pub open spec fn triu_state(K0: CscMatrix<F>, K: CscMatrix<F>, map0: Seq<usize>, map: Seq<usize>, offset: int, blockdim: int, jj: int, ii: int) -> bool {
+    &&& K.arrays_ok() && K.rowval@.len() == K0.rowval@.len() && K.colptr@.len() == K0.colptr@.len() && map.len() == map0.len()
+    &&& forall|c: int| 0 <= c < K0.colptr@.len() ==> #[trigger] K.colptr@[c] == K0.colptr@[c] + tri_cnt(c - offset, jj, ii)
+    // C11: entry (offset + i, offset + j), i <= j, of the upper triangle sits in slot cursor(j) + i as a structural zero,
+    // and the packed-triangle index tri(j) + i of the map records that slot
+    &&& forall|j: int, i: int| #[trigger] tri_done(j, i, jj, ii, blockdim) ==> {
+            let d = K0.colptr@[offset + j] + i;
+            K.rowval@[d] == offset + i && K.nzval@[d] == f_zero() && map[tri(j) + i] == d }
+    &&& forall|s: int| 0 <= s < K0.rowval@.len() && #[trigger] tri_free(K0.colptr@, offset, blockdim, jj, ii, s)
+            ==> K.rowval@[s] == K0.rowval@[s] && K.nzval@[s] == K0.nzval@[s]
+    &&& forall|k: int| tri(jj) + ii <= k < map0.len() ==> #[trigger] map[k] == map0[k]
+}
+pub proof fn lemma_triu_step(K0: CscMatrix<F>, K1: CscMatrix<F>, K2: CscMatrix<F>, map0: Seq<usize>, map1: Seq<usize>, map2: Seq<usize>,
+                             offset: int, blockdim: int, jj: int, ii: int)
+    requires
+        tri_pre(K0, offset, blockdim, map0.len() as int), 0 <= ii <= jj < blockdim,
+        triu_state(K0, K1, map0, map1, offset, blockdim, jj, ii),
+        K0.rowval@.len() <= usize::MAX, K0.colptr@.len() <= usize::MAX,
+        ({ let d = K1.colptr@[offset + jj] as int;
+           &&& 0 <= d < K1.rowval@.len() && 0 <= tri(jj) + ii < map1.len()
+           &&& K2.rowval@ == K1.rowval@.update(d, (offset + ii) as usize) && K2.nzval@ == K1.nzval@.update(d, f_zero())
+           &&& map2 == map1.update(tri(jj) + ii, d as usize) && K2.colptr@ == K1.colptr@.update(offset + jj, (d + 1) as usize) }),
+    ensures triu_state(K0, K2, map0, map2, offset, blockdim, jj, ii + 1),
+{
+    let d = K1.colptr@[offset + jj] as int;
+    assert(d == K0.colptr@[offset + jj] + ii) by { assert(tri_cnt(offset + jj - offset, jj, ii) == ii); }
+    assert(K0.colptr@[offset + jj] + jj + 1 <= K0.rowval@.len());
+    assert forall|c: int| 0 <= c < K0.colptr@.len() implies #[trigger] K2.colptr@[c] == K0.colptr@[c] + tri_cnt(c - offset, jj, ii + 1) by {
+        assert(K1.colptr@[c] == K0.colptr@[c] + tri_cnt(c - offset, jj, ii));
+    }
+    assert forall|j: int, i: int| #[trigger] tri_done(j, i, jj, ii + 1, blockdim) implies ({
+            let dd = K0.colptr@[offset + j] + i;
+            K2.rowval@[dd] == offset + i && K2.nzval@[dd] == f_zero() && map2[tri(j) + i] == dd }) by {
+        let dd = K0.colptr@[offset + j] + i;
+        lemma_tri_mono(j, j);
+        lemma_tri_mono(jj, jj);
+        if tri_done(j, i, jj, ii, blockdim) {
+            if j < jj {
+                assert(K0.colptr@[offset + j] + j + 1 <= K0.colptr@[offset + jj]);
+                lemma_tri_mono(j + 1, jj);
+                assert(tri(j + 1) == tri(j) + j + 1);
+            }
+            assert(dd != d);
+            assert(tri(j) + i != tri(jj) + ii);
+            assert(K1.rowval@[dd] == offset + i && K1.nzval@[dd] == f_zero() && map1[tri(j) + i] == dd);
+            assert(0 <= dd < K1.rowval@.len());
+            assert(0 <= tri(j) + i < map1.len());
+        } else {
+            assert(j == jj && i == ii);
+            assert(dd == d);
+        }
+    }
+    assert forall|s: int| 0 <= s < K0.rowval@.len() && #[trigger] tri_free(K0.colptr@, offset, blockdim, jj, ii + 1, s)
+        implies K2.rowval@[s] == K0.rowval@[s] && K2.nzval@[s] == K0.nzval@[s] by {
+        assert(!(K0.colptr@[offset + jj] <= s < K0.colptr@[offset + jj] + tri_cnt(jj, jj, ii + 1)));
+        assert(s != d);
+        assert(tri_free(K0.colptr@, offset, blockdim, jj, ii, s)) by {
+            assert forall|j: int| 0 <= j < blockdim implies !(#[trigger] K0.colptr@[offset + j] <= s < K0.colptr@[offset + j] + tri_cnt(j, jj, ii)) by {
+                assert(tri_cnt(j, jj, ii) <= tri_cnt(j, jj, ii + 1));
+            }
+        }
+    }
+}
+pub proof fn lemma_triu_roll(K0: CscMatrix<F>, K: CscMatrix<F>, map0: Seq<usize>, map: Seq<usize>, offset: int, blockdim: int, jj: int)
+    requires 0 <= jj < blockdim, triu_state(K0, K, map0, map, offset, blockdim, jj, jj + 1),
+    ensures triu_state(K0, K, map0, map, offset, blockdim, jj + 1, 0),
+{
+    assert(tri(jj + 1) == tri(jj) + jj + 1);
+    assert forall|c: int| 0 <= c < K0.colptr@.len() implies #[trigger] K.colptr@[c] == K0.colptr@[c] + tri_cnt(c - offset, jj + 1, 0) by {
+        assert(tri_cnt(c - offset, jj + 1, 0) == tri_cnt(c - offset, jj, jj + 1));
+    }
+    assert forall|j: int, i: int| #[trigger] tri_done(j, i, jj + 1, 0, blockdim) implies ({
+            let dd = K0.colptr@[offset + j] + i;
+            K.rowval@[dd] == offset + i && K.nzval@[dd] == f_zero() && map[tri(j) + i] == dd }) by {
+        assert(tri_done(j, i, jj, jj + 1, blockdim));
+    }
+    assert forall|s: int| 0 <= s < K0.rowval@.len() && #[trigger] tri_free(K0.colptr@, offset, blockdim, jj + 1, 0, s)
+        implies K.rowval@[s] == K0.rowval@[s] && K.nzval@[s] == K0.nzval@[s] by {
+        assert(tri_free(K0.colptr@, offset, blockdim, jj, jj + 1, s)) by {
+            assert forall|j: int| 0 <= j < blockdim implies !(#[trigger] K0.colptr@[offset + j] <= s < K0.colptr@[offset + j] + tri_cnt(j, jj, jj + 1)) by {
+                assert(tri_cnt(j, jj + 1, 0) == tri_cnt(j, jj, jj + 1));
+            }
+        }
+    }
+}
+
+
+
+// lower-triangle variant: the outer loop runs over rows rr, the inner over the columns j <= rr of that row
+pub open spec fn tril_cnt(j: int, rr: int, jj: int) -> int { (if 0 <= j < rr { rr - j } else { 0 }) + (if 0 <= j < jj && j <= rr { 1int } else { 0 }) }
+pub open spec fn tril_free(c0: Seq<usize>, offset: int, blockdim: int, rr: int, jj: int, s: int) -> bool {
+    forall|j: int| 0 <= j < blockdim ==> !(#[trigger] c0[offset + j] <= s < c0[offset + j] + tril_cnt(j, rr, jj))
+}
+pub open spec fn tril_pre(K0: CscMatrix<F>, offset: int, blockdim: int, maplen: int) -> bool {
+    &&& K0.arrays_ok() && 0 <= offset && 0 <= blockdim && offset + blockdim <= K0.colptr@.len() && maplen >= tri(blockdim)
+    &&& forall|j: int| 0 <= j < blockdim ==> #[trigger] K0.colptr@[offset + j] + (blockdim - j) <= K0.rowval@.len()
+    &&& forall|j1: int, j2: int| 0 <= j1 < j2 < blockdim ==> #[trigger] K0.colptr@[offset + j1] + (blockdim - j1) <= #[trigger] K0.colptr@[offset + j2]
+}
+pub open spec fn tril_state(K0: CscMatrix<F>, K: CscMatrix<F>, map0: Seq<usize>, map: Seq<usize>, offset: int, blockdim: int, rr: int, jj: int) -> bool {
+    &&& K.arrays_ok() && K.rowval@.len() == K0.rowval@.len() && K.colptr@.len() == K0.colptr@.len() && map.len() == map0.len()
+    &&& forall|c: int| 0 <= c < K0.colptr@.len() ==> #[trigger] K.colptr@[c] == K0.colptr@[c] + tril_cnt(c - offset, rr, jj)
+    // C11: the packed upper-triangle entry (j, r), j <= r, is placed TRANSPOSED at (offset + r, offset + j): slot cursor(j) + (r - j)
+    &&& forall|r: int, j: int| #[trigger] tri_done(r, j, rr, jj, blockdim) ==> {
+            let d = K0.colptr@[offset + j] + (r - j);
+            K.rowval@[d] == offset + r && K.nzval@[d] == f_zero() && map[tri(r) + j] == d }
+    &&& forall|s: int| 0 <= s < K0.rowval@.len() && #[trigger] tril_free(K0.colptr@, offset, blockdim, rr, jj, s)
+            ==> K.rowval@[s] == K0.rowval@[s] && K.nzval@[s] == K0.nzval@[s]
+    &&& forall|k: int| tri(rr) + jj <= k < map0.len() ==> #[trigger] map[k] == map0[k]
+}
+pub proof fn lemma_tril_step(K0: CscMatrix<F>, K1: CscMatrix<F>, K2: CscMatrix<F>, map0: Seq<usize>, map1: Seq<usize>, map2: Seq<usize>,
+                             offset: int, blockdim: int, rr: int, jj: int)
+    requires
+        tril_pre(K0, offset, blockdim, map0.len() as int), 0 <= jj <= rr < blockdim,
+        tril_state(K0, K1, map0, map1, offset, blockdim, rr, jj),
+        K0.rowval@.len() <= usize::MAX, K0.colptr@.len() <= usize::MAX,
+        ({ let d = K1.colptr@[offset + jj] as int;
+           &&& 0 <= d < K1.rowval@.len() && 0 <= tri(rr) + jj < map1.len()
+           &&& K2.rowval@ == K1.rowval@.update(d, (offset + rr) as usize) && K2.nzval@ == K1.nzval@.update(d, f_zero())
+           &&& map2 == map1.update(tri(rr) + jj, d as usize) && K2.colptr@ == K1.colptr@.update(offset + jj, (d + 1) as usize) }),
+    ensures tril_state(K0, K2, map0, map2, offset, blockdim, rr, jj + 1),
+{
+    let d = K1.colptr@[offset + jj] as int;
+    assert(d == K0.colptr@[offset + jj] + (rr - jj)) by { assert(tril_cnt(offset + jj - offset, rr, jj) == rr - jj); }
+    assert(K0.colptr@[offset + jj] + (blockdim - jj) <= K0.rowval@.len());
+    assert forall|c: int| 0 <= c < K0.colptr@.len() implies #[trigger] K2.colptr@[c] == K0.colptr@[c] + tril_cnt(c - offset, rr, jj + 1) by {
+        assert(K1.colptr@[c] == K0.colptr@[c] + tril_cnt(c - offset, rr, jj));
+    }
+    assert forall|r: int, j: int| #[trigger] tri_done(r, j, rr, jj + 1, blockdim) implies ({
+            let dd = K0.colptr@[offset + j] + (r - j);
+            K2.rowval@[dd] == offset + r && K2.nzval@[dd] == f_zero() && map2[tri(r) + j] == dd }) by {
+        let dd = K0.colptr@[offset + j] + (r - j);
+        lemma_tri_mono(r, r);
+        lemma_tri_mono(rr, rr);
+        if tri_done(r, j, rr, jj, blockdim) {
+            if r < rr {
+                lemma_tri_mono(r + 1, rr);
+                assert(tri(r + 1) == tri(r) + r + 1);
+            }
+            if j < jj { assert(K0.colptr@[offset + j] + (blockdim - j) <= K0.colptr@[offset + jj]); }
+            if jj < j { assert(K0.colptr@[offset + jj] + (blockdim - jj) <= K0.colptr@[offset + j]); }
+            assert(dd != d);
+            assert(tri(r) + j != tri(rr) + jj);
+            assert(K1.rowval@[dd] == offset + r && K1.nzval@[dd] == f_zero() && map1[tri(r) + j] == dd);
+            assert(K0.colptr@[offset + j] + (blockdim - j) <= K0.rowval@.len());
+            assert(0 <= dd < K1.rowval@.len());
+            assert(0 <= tri(r) + j < map1.len());
+        } else {
+            assert(r == rr && j == jj);
+            assert(dd == d);
+        }
+    }
+    assert forall|s: int| 0 <= s < K0.rowval@.len() && #[trigger] tril_free(K0.colptr@, offset, blockdim, rr, jj + 1, s)
+        implies K2.rowval@[s] == K0.rowval@[s] && K2.nzval@[s] == K0.nzval@[s] by {
+        assert(!(K0.colptr@[offset + jj] <= s < K0.colptr@[offset + jj] + tril_cnt(jj, rr, jj + 1)));
+        assert(s != d);
+        assert(tril_free(K0.colptr@, offset, blockdim, rr, jj, s)) by {
+            assert forall|j: int| 0 <= j < blockdim implies !(#[trigger] K0.colptr@[offset + j] <= s < K0.colptr@[offset + j] + tril_cnt(j, rr, jj)) by {
+                assert(tril_cnt(j, rr, jj) <= tril_cnt(j, rr, jj + 1));
+            }
+        }
+    }
+}
+pub proof fn lemma_tril_roll(K0: CscMatrix<F>, K: CscMatrix<F>, map0: Seq<usize>, map: Seq<usize>, offset: int, blockdim: int, rr: int)
+    requires 0 <= rr < blockdim, tril_state(K0, K, map0, map, offset, blockdim, rr, rr + 1),
+    ensures tril_state(K0, K, map0, map, offset, blockdim, rr + 1, 0),
+{
+    assert(tri(rr + 1) == tri(rr) + rr + 1);
+    assert forall|c: int| 0 <= c < K0.colptr@.len() implies #[trigger] K.colptr@[c] == K0.colptr@[c] + tril_cnt(c - offset, rr + 1, 0) by {
+        assert(tril_cnt(c - offset, rr + 1, 0) == tril_cnt(c - offset, rr, rr + 1));
+    }
+    assert forall|r: int, j: int| #[trigger] tri_done(r, j, rr + 1, 0, blockdim) implies ({
+            let dd = K0.colptr@[offset + j] + (r - j);
+            K.rowval@[dd] == offset + r && K.nzval@[dd] == f_zero() && map[tri(r) + j] == dd }) by {
+        assert(tri_done(r, j, rr, rr + 1, blockdim));
+    }
+    assert forall|s: int| 0 <= s < K0.rowval@.len() && #[trigger] tril_free(K0.colptr@, offset, blockdim, rr + 1, 0, s)
+        implies K.rowval@[s] == K0.rowval@[s] && K.nzval@[s] == K0.nzval@[s] by {
+        assert(tril_free(K0.colptr@, offset, blockdim, rr, rr + 1, s)) by {
+            assert forall|j: int| 0 <= j < blockdim implies !(#[trigger] K0.colptr@[offset + j] <= s < K0.colptr@[offset + j] + tril_cnt(j, rr, rr + 1)) by {
+                assert(tril_cnt(j, rr + 1, 0) == tril_cnt(j, rr, rr + 1));
+            }
+        }
+    }
+}
 
 // ---- fill_block: abstract cursor discipline
 impl CscMatrix<F> {
